@@ -95,6 +95,8 @@ try:
             meta['detected_by'] = sorted(k for k, v in meta['checks'].items() if v['exit'] == 1 and v['violation_lines'])
             if not meta['needs_to_manifest']:
                 meta['needs_to_manifest'] = old.get('needs_to_manifest', '')
+            if 'baseline' not in meta and 'baseline' in old:
+                meta['baseline'] = old['baseline'] + ' (from the first evaluation of this change)'
         json.dump(meta, open(os.path.join(dst, 'meta.json'), 'w'), indent=1)
         print('saved to', dst)
 finally:
